@@ -213,7 +213,11 @@ func (s *solo) step() {
 		}
 		net.Send(g, s.me, msgs...)
 	case x < 34:
-		s.quorum(tmproto.PrevoteType, h, round+int32(r.Intn(3))-1, s.pickBlock(h), r.Intn(4) != 0)
+		qr := round + 1 - int32(r.Intn(5)) // late quorums from up to three rounds back are included
+		if qr < 0 {
+			qr = 0
+		}
+		s.quorum(tmproto.PrevoteType, h, qr, s.pickBlock(h), r.Intn(4) != 0)
 	case x < 46:
 		s.quorum(tmproto.PrecommitType, h, round+int32(r.Intn(3))-1, s.pickBlock(h), r.Intn(4) != 0)
 	case x < 52:
@@ -281,6 +285,173 @@ func (s *solo) step() {
 
 func p2pid(g int) string { return fmt.Sprint(g) }
 
+// deliverAllToMe hands the node everything in flight.
+func (s *solo) deliverAllToMe() {
+	for guard := 0; len(s.net.InFlight) > 0 && guard < 5000; guard++ {
+		e := s.net.InFlight[0]
+		s.net.InFlight = s.net.InFlight[1:]
+		s.net.Deliver(e)
+	}
+}
+
+// votesFrom signs votes of the given stubs.
+func (s *solo) votesFrom(stubs []int, typ tmproto.SignedMsgType, h int64, round int32, bid types.BlockID) []*types.Vote {
+	rs := s.nd.CS.GetRoundState()
+	var out []*types.Vote
+	for _, g := range stubs {
+		out = append(out, s.net.SignVote(rs.Validators, g, typ, h, round, bid, s.now))
+	}
+	return out
+}
+
+func (s *solo) sendVotes(vs []*types.Vote) {
+	for _, v := range vs {
+		g := s.net.AddrIdx[string(v.ValidatorAddress)]
+		s.net.Send(g, s.me, &cs.VoteMessage{Vote: v})
+	}
+}
+
+// passRound moves the node from round `round` to the next one: all stubs precommit nil, the wait timeout fires.
+func (s *solo) passRound(h int64, round int32) {
+	rs := s.nd.CS.GetRoundState()
+	if rs.Height != h || rs.Round != round {
+		return
+	}
+	if rs.Step == cstypes.RoundStepPropose {
+		s.net.FireTimeout(s.me)
+	}
+	s.sendVotes(s.votesFrom(s.stubs(rs.Validators), tmproto.PrecommitType, h, round, types.BlockID{}))
+	s.deliverAllToMe()
+	for k := 0; k < 3; k++ {
+		cur := s.nd.CS.GetRoundState()
+		if cur.Height != h || cur.Round != round {
+			return
+		}
+		s.net.FireTimeout(s.me)
+	}
+}
+
+// recipeRelockStalePolka: the node locks B, a quorum for another block C in a later round r1 is delivered only
+// partially, the node re-locks B in a still later round r2 (with or without a proposal there), then the rest of the
+// round-r1 prevotes for C arrives (a polka older than the latest lock), and a fresh proposal comes in round r2+1.
+// A correct node keeps prevoting B.
+func (s *solo) recipeRelockStalePolka() string {
+	net, nd, r := s.net, s.nd, s.r
+	rs := nd.CS.GetRoundState()
+	h := rs.Height
+	if !net.StartRoundOne(s.me, h) {
+		return "cannot-start"
+	}
+	rs = nd.CS.GetRoundState()
+	vals := rs.Validators
+	stubs := s.stubs(vals)
+	var stubPower int64
+	for _, g := range stubs {
+		stubPower += s.power(vals, g)
+	}
+	if 3*stubPower <= 2*vals.TotalVotingPower() {
+		return "stubs-below-quorum"
+	}
+	r0 := rs.Round
+	// ---- lock B in round r0
+	if g := net.ProposerAt(nd, r0); net.IsFaulty[g] {
+		kb := net.ByzBlock(nd, g, r0, 21, "")
+		if kb == nil {
+			return "cannot-build"
+		}
+		net.Send(g, s.me, net.ProposalMsgs(g, kb, h, r0, -1)...)
+	}
+	s.deliverAllToMe()
+	rs = nd.CS.GetRoundState()
+	if rs.ProposalBlock == nil {
+		return "no-proposal"
+	}
+	B := types.BlockID{Hash: rs.ProposalBlock.Hash(), PartSetHeader: rs.ProposalBlockParts.Header()}
+	s.sendVotes(s.votesFrom(stubs, tmproto.PrevoteType, h, r0, B))
+	s.deliverAllToMe()
+	if nd.CS.GetRoundState().LockedBlock == nil {
+		return "not-locked"
+	}
+	s.passRound(h, r0)
+	// ---- round r1: partial quorum for C, the rest is held back
+	r1 := r0 + 1
+	if nd.CS.GetRoundState().Round != r1 {
+		return "not-in-r1"
+	}
+	C := s.pickBlock(h)
+	for string(C.Hash) == string(B.Hash) || len(C.Hash) == 0 {
+		C = types.BlockID{Hash: randHash(r), PartSetHeader: types.PartSetHeader{Total: 1, Hash: randHash(r)}}
+	}
+	var early, late []int
+	var sum int64
+	for _, g := range stubs {
+		p := s.power(vals, g)
+		if 3*(sum+p) <= 2*vals.TotalVotingPower() && r.Intn(4) != 0 {
+			early = append(early, g)
+			sum += p
+		} else {
+			late = append(late, g)
+		}
+	}
+	lateVotes := s.votesFrom(late, tmproto.PrevoteType, h, r1, C)
+	s.sendVotes(s.votesFrom(early, tmproto.PrevoteType, h, r1, C))
+	s.deliverAllToMe()
+	// ---- round r2 (possibly skipping rounds): polka for B again -> re-lock
+	r2 := r1 + 1 + int32(r.Intn(2))
+	withProposal := r.Intn(2) == 0
+	if withProposal {
+		if g := net.ProposerAt(nd, r2); net.IsFaulty[g] {
+			if kb := net.Known[string(B.Hash)]; kb != nil && kb.Block != nil {
+				net.Send(g, s.me, net.ProposalMsgs(g, kb, h, r2, r0)...)
+			}
+		}
+	}
+	// a 2/3 quorum of round-r2 prevotes makes the node skip to r2
+	s.sendVotes(s.votesFrom(stubs, tmproto.PrevoteType, h, r2, B))
+	s.deliverAllToMe()
+	for k := 0; k < 4; k++ {
+		cur := nd.CS.GetRoundState()
+		if cur.Round == r2 && cur.Step >= cstypes.RoundStepPrecommit {
+			break
+		}
+		net.FireTimeout(s.me)
+		s.deliverAllToMe()
+	}
+	relocked := false
+	for _, sg := range nd.PV.Log {
+		if sg.Kind == "precommit" && sg.Height == h && sg.Round == r2 && string(sg.BlockID.Hash) == string(B.Hash) {
+			relocked = true
+		}
+	}
+	// ---- the stale round-r1 prevotes for C arrive now
+	s.sendVotes(lateVotes)
+	s.deliverAllToMe()
+	// ---- next round with a fresh proposal
+	s.passRound(h, r2)
+	r3 := r2 + 1
+	if g := net.ProposerAt(nd, r3); net.IsFaulty[g] {
+		if kb := net.ByzBlock(nd, g, r3, 23, ""); kb != nil {
+			net.Send(g, s.me, net.ProposalMsgs(g, kb, h, r3, -1)...)
+		}
+	}
+	s.deliverAllToMe()
+	cur := nd.CS.GetRoundState()
+	if cur.Height == h && cur.Round == r3 && cur.Step == cstypes.RoundStepPropose {
+		net.FireTimeout(s.me)
+		s.deliverAllToMe()
+	}
+	if relocked {
+		return "relocked-then-stale-polka"
+	}
+	return "stale-polka-without-relock"
+}
+
+func randHash(r *rand.Rand) []byte {
+	b := make([]byte, 32)
+	r.Read(b)
+	return b
+}
+
 func runSolo(c *verdict.Ctx, idx int, tmp string) {
 	r := c.Rand("solo", idx)
 	n := []int{4, 4, 5, 7}[r.Intn(4)]
@@ -319,6 +490,9 @@ func runSolo(c *verdict.Ctx, idx int, tmp string) {
 	net.Start()
 	net.Pump()
 	maxRound := int32(0)
+	if r.Intn(4) == 0 {
+		c.Count("solo.recipe.relock:"+s.recipeRelockStalePolka(), 1)
+	}
 	for k := 0; k < cfg.Steps; k++ {
 		if s.nd.Halted != "" {
 			// > 2/3 of the power (all stubs) backed an invalid block: the node halts by design
